@@ -603,7 +603,7 @@ def main(prop, tier):
         camp.run(c16_exe_case, [("Int", ints[i::8]) for i in range(8)] + [("Real", reals[i::8]) for i in range(8)], chunksize=1)
         return camp.finish(replay_fn=c16_replay, min_evals=2000)
     if prop == "C14":
-        per, n = (2, 2500) if tier == "quick" else (40, 20000)
+        per, n = (6, 4000) if tier == "quick" else (60, 20000)
         camp.rule = ("h_terms builds random well-sorted argument tuples bottom-up through mkAnd/mkOr/mkNot/mkImpl/mkXor/mkIte/"
                      "mkEq/mkDistinct/mkPlus/mkMinus/mkNeg/mkTimes/mkRealDiv/mkIntDiv/mkMod/mkLeq/mkLt/mkGeq/mkGt/mkSelect/"
                      "mkStore/UF application (boundary constants, repeated and complementary arguments, depth grows with the pool); "
